@@ -180,12 +180,19 @@ pub fn parse_check(m: &str, d: &Dump, spec: &SetSpec, inputs: &[String]) -> Stri
     // ProdKind position -> dump production index
     writeln!(code, "    let pidx: &[usize] = &[{}];", n.prods.iter().map(|p| p.1.to_string()).collect::<Vec<_>>().join(", ")).unwrap();
     code.push_str(
-        r#"    fn show(t: &TreeNode<str, ProdKind, TokenKind>, pidx: &[usize], out: &mut String) {
+        r#"    // `input`: the buffer that was parsed. A token value that is not the very slice of that buffer at the token's span
+    // (C13: pointer identity, which route D shows for the runtime) is marked in the rendering.
+    fn show(t: &TreeNode<str, ProdKind, TokenKind>, pidx: &[usize], input: &str, out: &mut String) {
         match t {
-            TreeNode::TermNode { token, .. } => { write!(out, "t{}[{}-{}]{:?} ", token.kind as usize, token.span.start.pos, token.span.end.pos, token.value).unwrap(); }
+            TreeNode::TermNode { token, .. } => {
+                let (s, e) = (token.span.start.pos, token.span.end.pos);
+                let same = s <= e && e <= input.len() && input.is_char_boundary(s) && input.is_char_boundary(e)
+                    && std::ptr::eq(token.value.as_ptr(), input[s..e].as_ptr()) && token.value.len() == e - s;
+                write!(out, "t{}[{}-{}]{:?}{} ", token.kind as usize, s, e, token.value, if same { "" } else { "!not-the-input-slice" }).unwrap();
+            }
             TreeNode::NonTermNode { prod, span, children, .. } => {
                 write!(out, "(p{}[{}-{}] ", pidx[*prod as usize], span.start.pos, span.end.pos).unwrap();
-                for c in children { show(c, pidx, out); }
+                for c in children { show(c, pidx, input, out); }
                 out.push_str(") ");
             }
         }
@@ -209,7 +216,7 @@ pub fn parse_check(m: &str, d: &Dump, spec: &SetSpec, inputs: &[String]) -> Stri
                         let mut b = TreeBuilder::new();
                         let tn = t.build::<TreeBuilder<'_, str, ProdKind, TokenKind>, State>(&mut b);
                         s.push_str(" # ");
-                        show(&tn, pidx, &mut s);
+                        show(&tn, pidx, input, &mut s);
                     }}
                 }}
                 s
@@ -225,7 +232,7 @@ pub fn parse_check(m: &str, d: &Dump, spec: &SetSpec, inputs: &[String]) -> Stri
             code,
             r#"    for (i, input) in inputs.iter().enumerate() {{
         let r = std::panic::catch_unwind(|| match {parser}::new().parse(input) {{
-            Ok(t) => {{ let mut s = String::from("OK # "); show(&t, pidx, &mut s); s }}
+            Ok(t) => {{ let mut s = String::from("OK # "); show(&t, pidx, input, &mut s); s }}
             Err(e) => errpos(&e),
         }});
         println!("P {{}} {{}}", i, r.unwrap_or("PANIC".to_string()));
